@@ -4,7 +4,9 @@ CFG = dict(
         level="proof",
         lean_modules=["ElysModel.Props.C03"],
         props_files=["ElysModel/Props/C03.lean"],
-        runs=[dict(mode="c03", n_quick=2500, n_thorough=72000, shards_quick=8, shards_thorough=14)],
+        runs=[dict(mode="c03", n_quick=2500, n_thorough=72000, shards_quick=8, shards_thorough=14),
+              dict(hist_run(nq=150, nt=400, sq=6, st=10, focus="amm."), driver="C03H"),
+              dict(scn_run("c03"), driver="C03H")],
         rule="differential cases on the real x/amm/types functions (CalcOutAmtGivenIn / SwapOutAmtGivenIn, CalcInAmtGivenOut / "
              "SwapInAmtGivenOut on generated non-oracle two-asset pools; the same two Swap functions on generated ORACLE pools with stub price / accounted-pool "
              "keepers, external-liquidity ratios, snapshots and weight-breaking-fee parameters; types.Pow): reserves log-uniform 10^0..10^30, weights "
@@ -14,7 +16,7 @@ CFG = dict(
         trusted_base=COMMON_TB + ["oracle / accounted-pool keepers replaced by table-driven stubs (not consulted for prices by non-oracle pools)",
                                   "reference value of the weighted-product formula for unequal weights: math/big.Float at 420 bits in the harness"],
         assumptions=["theorems are about non-oracle pools; the oracle branches of SwapOutAmtGivenIn/SwapInAmtGivenOut are ported and checked differentially, and the value predicates "
-                     "C03.oracle_value / C03.oracle_in_value are evaluated on every real output, but not proved; the bonus cap of UpdatePoolForSwap (treasury balance) is not covered by this check",
+                     "C03.oracle_value / C03.oracle_in_value are evaluated on every real output, but not proved; the bonus is judged on real blocks (driver C03H): over a block's end-block transfers an oracle pool's own account never pays out more value than it takes in at the prices in force, so any bonus comes from the rebalance treasury",
                      "equal-weight statements are proved about the Lean port; unequal-weight statements are conditional on PowSpec (|Pow(y,w) - y^w| <= 1e-8 on 0<y<=1), which is TESTED against the 420-bit reference (clause C03.pow_spec), not proved",
                      "weighted allowance is 1e-8 of the RESERVE (what PowSpec yields), fees in [0,2%], exact-in trades up to 1000 x the in-reserve"],
         explanation="Theorems C03.* about the Lean port of solveConstantFunctionInvariant/Pow/CalcOutAmtGivenIn/CalcInAmtGivenOut (equal weights: "
